@@ -70,13 +70,26 @@ class LazyDisk:
         self.seq += 1
         self.jobs.append({"kind": "in", "shmid": shmid, "size": size, "cb": callback, "seq": self.seq})
 
-    def run_io(self, i: int, ok: bool) -> None:
+    def run_io(self, i: int, ok: bool, mid=None) -> None:
         """First half of a job: the real disk/segment work of Disk._page_out/_page_in; the completion callback into the Manager is
         captured and delivered later (run_cb). This lets a history put a client request between the two halves, as a real disk
-        thread can be pre-empted there."""
+        thread can be pre-empted there. `mid`, if given, is called once at the moment the real code opens the spill file -- i.e.
+        after _page_out attached to the segment and before it unlinks it, after _page_in created the segment and before it copied
+        the bytes: a third pre-emption point, inside the disk work itself."""
         job = self.jobs[i]
         if job.get("phase") == "cb":
             return
+        job["phase"] = "io"
+        if mid is not None:
+            fired = [False]
+
+            def _open(*a, **k):
+                if not fired[0]:
+                    fired[0] = True
+                    mid()
+                return open(*a, **k)
+
+            disk.open = _open  # module global shadows the builtin for the code in cascade.shm.disk only
         real_root = self.root
         if not ok:  # realistic failure: the spill directory is not writable / the spilled file is gone
             self.root = _Root(os.path.join(self.dir, "does-not-exist"))
@@ -88,6 +101,8 @@ class LazyDisk:
                 disk.Disk._page_in(self, job["shmid"], job["size"], got.append)
         finally:
             self.root = real_root
+            if mid is not None:
+                del disk.open
         job["phase"] = "cb"
         job["result"] = got[0] if got else False
 
@@ -201,7 +216,7 @@ def histories(draw, max_ops: int = 50):
     n = draw(st.integers(5, max_ops))
     ops = []
     kinds = ["alloc", "alloc", "alloc", "finish", "finish", "get", "get", "get", "close", "close", "purge", "purge", "job_ok", "job_ok",
-             "job_ok", "job_io", "job_io", "job_fail", "clock", "alloc_p", "get_p", "free"]
+             "job_ok", "job_io", "job_io", "job_mid", "job_fail", "clock", "alloc_p", "get_p", "free"]
     churn = draw(st.booleans())
     nkeys = len(KEYS)
     if churn:
@@ -209,7 +224,7 @@ def histories(draw, max_ops: int = 50):
         # back, purged and written again
         nkeys = draw(st.integers(2, 3))
         kinds = ["write", "write", "write", "roundtrip", "roundtrip", "roundtrip", "roundtrip", "rewrite", "rewrite", "alloc_p", "finish",
-                 "get_p", "close", "purge", "job_ok", "get", "alloc", "clock", "job_fail"]
+                 "get_p", "close", "purge", "job_ok", "get", "alloc", "clock", "job_fail", "job_mid"]
     for _ in range(n):
         k = draw(st.sampled_from(kinds))
         if k in ("write", "rewrite"):
@@ -229,6 +244,11 @@ def histories(draw, max_ops: int = 50):
             ops.append([k, draw(st.integers(0, 59)), draw(st.integers(0, 3))])
         elif k in ("job_ok", "job_fail", "job_io"):
             ops.append([k, draw(st.integers(0, 5))])
+        elif k == "job_mid":
+            # the disk half of a job with one client request executed in the middle of it (see LazyDisk.run_io)
+            ops.append([k, draw(st.integers(0, 5)), draw(st.sampled_from(["purge_same", "purge_same", "purge_same", "get_same", "purge", "get",
+                                                                         "alloc", "finish", "close"])),
+                        draw(st.integers(0, 59)), draw(st.integers(1, max(1, cap)))])
         elif k == "clock":
             ops.append([k, draw(st.sampled_from(["ms", "ms", "min", "16min"]))])
         else:
@@ -267,7 +287,7 @@ class Machine:
         self.jobs_model: list[dict] = []  # parallel to ldisk.jobs: {key, gen, kind}
         self.stats = {"grants": 0, "waits": 0, "pageouts_done": 0, "pageins_done": 0, "failed_out": 0, "failed_in": 0, "reads_ok": 0,
                       "read_after_cycle": 0, "wait_then_granted": 0, "purge_during_read": 0, "purge_with_pending_pageout": 0,
-                      "max_transitional": 0, "grant_after_pageout": 0, "evict_blocked_by_reader": 0, "stale_jobs": 0, "ops": 0,
+                      "max_transitional": 0, "grant_after_pageout": 0, "purge_with_pending_pagein": 0, "evict_blocked_by_reader": 0, "stale_jobs": 0, "ops": 0,
                       "persistent_unsatisfied": 0}
         self.known_f20 = known_f20
         self.f20_hits = 0
@@ -535,9 +555,16 @@ class Machine:
             return
         if d["state"] == "on_disk":
             return  # the store keeps spilled datasets (documented: 'skipping purge because is on disk')
-        if d["state"] == "paging_out":
-            self.stats["purge_with_pending_pageout"] += 1
-        # created / in_memory / paging_out / paged_in: the segment is released and the key forgotten
+        if d["state"] in ("paging_out", "paged_in"):
+            # a disk job is working on the dataset: the purge takes effect when the job has completed (as for a purge during a read)
+            self.stats["purge_with_pending_pageout" if d["state"] == "paging_out" else "purge_with_pending_pagein"] += 1
+            if key not in self.m.datasets:
+                # the store chose to drop it at once: allowed; whatever its pending job does afterwards is judged by the invariants
+                self.model.pop(key)
+                return
+            d["delayed"] = True
+            return
+        # created / in_memory: the segment is released and the key forgotten
         if key in self.m.datasets:
             # the store refused (e.g. segment missing for a paged_in dataset): nothing was returned
             return
@@ -594,6 +621,8 @@ class Machine:
             if ok:
                 d["state"] = "in_memory"
                 self.stats["pageins_done"] += 1
+                if d["delayed"] and not d["readers"]:
+                    self._model_drop(key, "purge delayed until the page-in completed")
             else:
                 self.stats["failed_in"] += 1
                 self._after_failed_job(key)
@@ -621,6 +650,43 @@ class Machine:
         try:
             self.ldisk.run_io(i, True)
             self.stats["job_split"] = self.stats.get("job_split", 0) + 1
+        except Exception as e:
+            self.breach("C09", "job-raises", f"disk job {jm} raised {type(e).__name__}: {e}")
+
+    def op_job_mid(self, i: int, sub: str, raw: int, size: int) -> None:
+        """The disk half of a pending job with one (non-persistent) client request executed in the middle of it."""
+        if not self.ldisk.jobs:
+            return
+        i = i % len(self.ldisk.jobs)
+        if self.ldisk.jobs[i].get("phase") == "cb":
+            return
+        jm = self.jobs_model[i]
+        d = self.model.get(jm["key"])
+        stale = d is None or d["gen"] != jm["gen"] or (jm["kind"] == "out" and d["state"] != "paging_out") or \
+            (jm["kind"] == "in" and d["state"] != "paged_in")
+        if stale and self.known_f20:
+            return  # left to op_job, which drops it
+        same = KEYS.index(jm["key"])
+        if sub == "purge_same":
+            op = ["purge", same]
+        elif sub == "get_same":
+            op = ["get", same]
+        elif sub == "alloc":
+            op = ["alloc", self._sel("alloc", raw), size]
+        elif sub == "close":
+            op = ["close", self._sel("close", raw), raw % 4]
+        else:
+            op = [sub, self._sel(sub, raw)]
+
+        def mid():
+            self.stats["job_mid"] = self.stats.get("job_mid", 0) + 1
+            if op[0] == "purge" and op[1] == same:
+                self.stats["purge_inside_disk_job"] = self.stats.get("purge_inside_disk_job", 0) + 1
+                self.ldisk.jobs[i]["interrupted"] = True
+            self._one(op)
+
+        try:
+            self.ldisk.run_io(i, True, mid)
         except Exception as e:
             self.breach("C09", "job-raises", f"disk job {jm} raised {type(e).__name__}: {e}")
 
@@ -739,6 +805,8 @@ class Machine:
                 self.op_job(op[1], False)
             elif k == "job_io":
                 self.op_job_io(op[1])
+            elif k == "job_mid":
+                self.op_job_mid(op[1], op[2], op[3], op[4])
             elif k == "clock":
                 self.op_clock(op[1])
             elif k == "free":
